@@ -50,14 +50,15 @@ ItemOk == /\ Src /\ i <= Len(items) /\ items[i].k = "msg" /\ Len(items[i].ser) <
           /\ LET nb == buf \o Frame(0, items[i].ser) IN
              IF Len(nb) >= Yield THEN Emit(Data(nb)) /\ buf' = <<>> ELSE buf' = nb /\ UNCHANGED out
           /\ i' = i + 1 /\ UNCHANGED <<items, srcEnded, stash, eos>>
-\* source yields a message over the limit: finish_encoding fails
-ItemTooBig == /\ Src /\ i <= Len(items) /\ items[i].k = "msg" /\ Len(items[i].ser) > Limit
+\* encode_item fails: the message is over the limit (finish_encoding) or the codec refuses it (Encoder::encode)
+ItemTooBig == /\ Src /\ i <= Len(items) /\ (items[i].k = "encfail" \/ (items[i].k = "msg" /\ Len(items[i].ser) > Limit))
               /\ i' = i + 1
-              /\ IF KeepBatch THEN
-                    IF buf = <<>> THEN StatusOut(OUT_OF_RANGE) /\ UNCHANGED <<buf, stash>>
-                    ELSE Emit(Data(buf)) /\ buf' = <<>> /\ stash' = OUT_OF_RANGE /\ UNCHANGED eos
-                 ELSE \* as it was: 5 reserved bytes + payload stay in buf unpatched (modelled as a frame with flag 7), error returned at once
-                    /\ buf' = buf \o Frame(7, items[i].ser) /\ StatusOut(OUT_OF_RANGE) /\ UNCHANGED stash
+              /\ LET code == IF items[i].k = "encfail" THEN INTERNAL ELSE OUT_OF_RANGE IN
+                 IF KeepBatch THEN
+                    IF buf = <<>> THEN StatusOut(code) /\ UNCHANGED <<buf, stash>>
+                    ELSE Emit(Data(buf)) /\ buf' = <<>> /\ stash' = code /\ UNCHANGED eos
+                 ELSE \* as it was: 5 reserved bytes + what was written stay in buf unpatched (modelled as a frame with flag 7), error returned at once
+                    /\ buf' = buf \o Frame(7, items[i].ser) /\ StatusOut(code) /\ UNCHANGED stash
               /\ UNCHANGED <<items, srcEnded>>
 \* source yields an error: yield the batch first (stash), or the error at once
 ItemErr == /\ Src /\ i <= Len(items) /\ items[i].k = "err"
